@@ -364,6 +364,14 @@ def jobs(tier):
                 out.append(('composed', 'case_composed', dict(
                     kinds=list(c), dims=dd[::-1], n_ids=n_ids,
                     upstream=False), {}))
+    # a multi-dimensional sub-model *in front of* further sub-models (the
+    # column offsets of the reduced form advance by n_dim, not by 1)
+    for c, dd in ((('gaussian', 'lognormal'), [2, 1]),
+                  (('lognormal_nc', 'pooled', 'gaussian'), [2, 1, 1]),
+                  (('gaussian_nc', 'hetero', 'lognormal_nc'), [2, 2, 2]),
+                  (('truncgauss', 'gaussian'), [2, 2])):
+        out.append(('composed', 'case_composed', dict(
+            kinds=list(c), dims=dd, n_ids=2), {}))
     return out
 
 
@@ -371,7 +379,7 @@ BOUNDS = dict(
     quick='7 model kinds (Gaussian/LogNormal centred and non-centred, '
           'TruncatedGaussian, Pooled, Heterogeneous), n_dim 1..2, n_ids 1..2, '
           '3 parameter layouts, 3 return forms, with/without upstream '
-          'sensitivities; 5 compositions',
+          'sensitivities; 5 compositions + 4 with a multi-dimensional sub-model in front',
     thorough='n_dim 1..3, n_ids 1..3; all 49 ordered pairs of kinds composed '
              '(mixed dimensionalities)',
     outside='larger n_dim / n_ids; sigma = 0 exactly; covariate models (C07); '
